@@ -89,6 +89,23 @@ func neighbourIP(g *Gen, v string) string {
 }
 
 func focusedCase(g *Gen) (string, Req) {
+	if g.Chance(1, 25) {
+		// "/hostname."-shaped patterns on hostname requests: a pattern made of host-name characters only is matched
+		// against the URL "http://hostname" (so it does match), whatever its length and label shapes; any other
+		// character makes the rule a bare-hostname rule, which a leading "/" can never match
+		inner := Pick(g, []string{
+			"sub", "a.b", "ads.tracker", strings.Repeat("a.", 31) + "ab", strings.Repeat("a.", 32) + "b", strings.Repeat("ab.", 30) + "x",
+			strings.Repeat("x", 63), strings.Repeat("x", 64), strings.Repeat("x", 63) + ".y", "a..b", "-a.b", "a-.b", "a.-b", "A.B", "a_b", "a/b", "a*b",
+		})
+		host := inner + Pick(g, []string{".example.org", ".org", "x.org", ""})
+		if g.Chance(1, 6) {
+			host = "x" + host
+		}
+		if g.Bool() {
+			return "/" + inner + ".", Req{Kind: "host", Hostname: host}
+		}
+		return "/" + inner + ".", Req{Kind: "url", URL: "http://" + host + "/", Type: 4}
+	}
 	h := Pick(g, hostPool)
 	path := Pick(g, pathPool)
 	kind := g.Intn(12)
@@ -296,7 +313,9 @@ func focusedCase(g *Gen) (string, Req) {
 // "name." as the tail of one of its non-final labels (or the host is an unrelated neighbour, as a control).
 func wildcardInSuffix(g *Gen) (name, host string) {
 	pairs := [][2]string{{"go", "hyogo.jp"}, {"co", "eco.br"}, {"ice", "police.uk"}, {"o", "co.uk"}, {"e", "ne.jp"},
-		{"om", "com.au"}, {"rg", "org.uk"}, {"ov", "gov.uk"}, {"c", "ac.uk"}, {"et", "net.au"}, {"go", "go.jp"}}
+		{"om", "com.au"}, {"rg", "org.uk"}, {"ov", "gov.uk"}, {"c", "ac.uk"}, {"et", "net.au"}, {"go", "go.jp"},
+		// the name is the first label of a multi-label suffix: name.<tld> IS a public suffix (co.uk, com.au, ...)
+		{"co", "uk"}, {"com", "au"}, {"org", "uk"}, {"net", "au"}, {"ac", "uk"}, {"go", "jp"}, {"co", "jp"}, {"com", "br"}}
 	p := Pick(g, pairs)
 	name, host = p[0], p[0]+"."+p[1]
 	switch g.Intn(8) {
